@@ -100,8 +100,13 @@ def match_date_range(date, date_range):
     Match a specific date, a four-tuple with no special values, with a DateRange
     object which as a start date and end date.
     """
-    return (date[:3] >= date_range.startDate[:3]) \
-        and (date[:3] <= date_range.endDate[:3])
+    start_date = date_range.startDate[:3]
+    end_date = date_range.endDate[:3]
+
+    # an unspecified start or end date means the range is open on that side
+    unspecified = (255, 255, 255)
+    return ((start_date == unspecified) or (date[:3] >= start_date)) \
+        and ((end_date == unspecified) or (date[:3] <= end_date))
 
 #
 #   match_weeknday
